@@ -89,6 +89,9 @@ def gen_config(rnd, *, seg=None, ndim=None, allow_optional=True, per_axis=True, 
         cfg["shape"] = [8, 8, 8][: ndim - 1]
         if per_axis and rnd.random() < 0.3:
             cfg["pos_mode"] = "axes"
+    if big_frames and not cfg.get("static") and rnd.random() < 0.2:
+        cfg["layout"] = "lanes"  # long tracks over all frames (see _gen_init_lanes)
+        cfg["frames"] = rnd.randint(max(3, max_frames - 4), max_frames + 4)
     return cfg
 
 
@@ -109,8 +112,65 @@ def box_mask(shape, boxes) -> np.ndarray:
     return m
 
 
+def _gen_init_lanes(rnd, cfg) -> dict:
+    """Long tracks: 2-4 lanes (bands of rows) that each hold one track over all frames, with
+    occasional gaps (skip edges) and at most one division per lane; ids are dense, strided by
+    frame ((t+1)*stride+lane) or shuffled - 20-50 nodes."""
+    frames, shape = cfg["frames"], cfg["shape"]
+    k = rnd.randint(2, max(2, min(4, shape[0] // 2)))
+    band = shape[0] // k
+    id_max = int(np.iinfo(cfg["seg_dtype"]).max) if cfg["seg"] else 2**62
+    stride = rnd.choice([0, 0, 10, 1000, 10000])
+    if cfg.get("lane_stride") is not None:
+        stride = int(cfg["lane_stride"])
+    if (frames + 1) * stride + 2 * k + 2 > id_max:
+        stride = 0
+    nodes, nxt = [], 1
+    for lane in range(k):
+        heads = [(None, lane * band, (lane + 1) * band)]  # (parent, first row, end row) of live branches
+        for t in range(frames):
+            new_heads = []
+            for j, (parent, r0, r1) in enumerate(heads):
+                if parent is not None and rnd.random() < 0.12 and t < frames - 1:
+                    new_heads.append((parent, r0, r1))  # a gap: the next node hangs on a skip edge
+                    continue
+                nid = (t + 1) * stride + 2 * lane + j + 1 if stride else nxt
+                nxt += 1
+                node = {"id": nid, "t": t, "parent": None if parent is None else parent["id"],
+                        CUSTOM_NODE: round(rnd.random() * 10, 3)}
+                if parent is not None:
+                    node[CUSTOM_EDGE] = rnd.choice([0, 1, 2, 5])
+                h = rnd.randint(1, max(1, min(3, r1 - r0)))
+                a = rnd.randint(r0, r1 - h)
+                rest_lo, rest_hi = [a], [a + h]
+                for s_ in shape[1:]:
+                    ln = rnd.randint(1, min(3, s_))
+                    b = rnd.randint(0, s_ - ln)
+                    if parent is not None and "boxes" in parent and rnd.random() < 0.7:
+                        b = max(0, min(s_ - ln, parent["boxes"][0][0][len(rest_lo)] + rnd.randint(-1, 1)))
+                    rest_lo.append(b)
+                    rest_hi.append(b + ln)
+                if cfg["seg"]:
+                    node["boxes"] = [[rest_lo, rest_hi]]
+                else:
+                    node["pos"] = [round((lo + hi) / 2, 2) for lo, hi in zip(rest_lo, rest_hi)]
+                nodes.append(node)
+                if len(heads) == 1 and r1 - r0 >= 2 and rnd.random() < 0.1 and t < frames - 1:
+                    mid = (r0 + r1) // 2
+                    new_heads += [(node, r0, mid), (node, mid, r1)]  # division: two half-bands
+                else:
+                    new_heads.append((node, r0, r1))
+            heads = new_heads
+    nodes.sort(key=lambda n: (n["t"], n["id"]))
+    return {"cfg": cfg, "nodes": nodes,
+            "id_offsets": [rnd.randint(0, 6), rnd.randint(0, 6) + (300 if rnd.random() < 0.3 else 0)],
+            "perm_seed": rnd.randint(1, 10**6) if rnd.random() < 0.5 else None}
+
+
 def gen_init(rnd, cfg=None, *, max_nodes=10, need_edges=False) -> dict:
     cfg = cfg if cfg is not None else gen_config(rnd)
+    if cfg.get("layout") == "lanes":
+        return _gen_init_lanes(rnd, cfg)
     frames = cfg["frames"]
     shape = cfg["shape"]
     n = rnd.choice([0, 1, 2]) if rnd.random() < 0.08 and not need_edges else rnd.randint(3, max_nodes)
